@@ -222,6 +222,37 @@ pub async fn run_case(client: &Client, addr: std::net::SocketAddr, certs: &Certs
             }
         }
     }
+    // straight after a timeout: on a fresh stream the first call is answered late (after its
+    // timeout); the very next call, made while nothing else is in flight, is never answered: it must
+    // time out too, not be handed the late reply that arrives meanwhile
+    {
+        let b = client
+            .requestor(&topic)
+            .with_request_encoder(StringCodec)
+            .with_reply_decoder(StringCodec)
+            .with_request_timeout(Duration::from_millis(timeout_ms));
+        if let Ok(Ok(mut q)) = match b {
+            Ok(b) => Ok(b.open().await),
+            Err(e) => Err(e),
+        } {
+            let s_t = streams + 30;
+            for k in 0..2u64 {
+                let pa = format!("rq-{}-4-{}|late", s_t, 2 * k);
+                let t0 = Instant::now();
+                let ra = q.request(pa.clone()).await;
+                let _ = writeln!(out, "call {} {} late {} -> {} {}", s_t, 400 + 2 * k, pa, outcome(ra), t0.elapsed().as_millis());
+                let pb = format!("rq-{}-4-{}|never", s_t, 2 * k + 1);
+                let t0 = Instant::now();
+                let rb = q.request(pb.clone()).await;
+                let _ = writeln!(out, "call {} {} never {} -> {} {}", s_t, 401 + 2 * k, pb, outcome(rb), t0.elapsed().as_millis());
+                // a quick one in between rounds, so that the table has been used and emptied again
+                let pc = format!("rq-{}-4-q{}|quick", s_t, k);
+                let t0 = Instant::now();
+                let rc = q.request(pc.clone()).await;
+                let _ = writeln!(out, "call {} {} quick {} -> {} {}", s_t, 410 + k, pc, outcome(rc), t0.elapsed().as_millis());
+            }
+        }
+    }
     // after a recovered outage: two clones of one requestor, each recovered on its own, have calls
     // in flight at the same time (the first answered after the second): each gets its own reply
     if let Ok(oc) = connect_client(addr, certs, BackoffStrategy::constant().with_max_attempts(3).with_step(Duration::from_millis(10))).await {
